@@ -314,6 +314,7 @@ def run_case(case):
             atoms = _atoms(mp)
             cand_per_atom = []
             ok_atoms = True
+            too_many = False
             for atom in atoms:
                 R = _reference_dist(atom, state, n)
                 vmap = _value_map(atom, n)
@@ -340,10 +341,16 @@ def run_case(case):
                 if len(bins) > 1 or not plans:
                     per = [[di for di in cands if offers[di]["size"] == b] for b in bins]
                     if all(per):
-                        # offers are consumed in program order: take increasing index sequences
-                        for combo in itertools.islice(itertools.product(*per), 64):
-                            if list(combo) == sorted(set(combo)):
-                                plans.append(list(combo))
+                        n_combo = 1
+                        for x in per:
+                            n_combo *= len(x)
+                        if n_combo > 2000:
+                            too_many = True
+                        else:
+                            # offers are consumed in program order: take increasing index sequences
+                            for combo in itertools.product(*per):
+                                if list(combo) == sorted(set(combo)):
+                                    plans.append(list(combo))
                 if not plans:
                     ok_atoms = False
                     viol("born_rule_offer_missing", {"mp": mp[0], "atom": atom[0]},
@@ -366,7 +373,15 @@ def run_case(case):
                     all_keys = ["".join(map(str, _bits(i, k))) for i in range(2**k)]
                 else:
                     all_keys = sorted(set(cand_per_atom[0][0]))
-            for assoc in itertools.islice(itertools.product(*[c[1] for c in cand_per_atom]), 64):
+            n_assoc_total = 1
+            for c_ in cand_per_atom:
+                n_assoc_total *= len(c_[1])
+            if too_many or n_assoc_total > 4000:
+                # which offer fed which (term of the) measurement is not observable and there are too many
+                # candidate associations to enumerate: nothing is concluded for this measurement (sound)
+                counters["associations_not_enumerable"] = counters.get("associations_not_enumerable", 0) + 1
+                continue
+            for assoc in itertools.product(*[c[1] for c in cand_per_atom]):
                 n_assoc += 1
                 ok = True
                 for bi, b in enumerate(bins):
